@@ -488,6 +488,7 @@ def mk_rcells(c):
     rc = R.RCells(c["name"], c["params"], c["expr"], c.get("cached", True),
                   c.get("allow_none"), c.get("form", "lambda"), c.get("doc"), c.get("tick", True))
     rc.terms = c.get("terms")
+    rc.guards = c.get("guards")
     return rc
 
 
